@@ -133,7 +133,7 @@ def check_invariants(R, F, S):
         base = fn.canon_str({'l': st['lhs']['l'], 'p': st['lhs']['p'][:-1], 'ty': ''})
         L = lin('len:(*%s.octets)' % base)
         lv = origins.trace(fn, st['rv']['op']['pl']['l'], origins.norm_path(st['rv']['op']['pl']['p']), at=(b, i)) if st['rv']['k'] == 'use' and is_place(st['rv']['op']) else [('unknown', 'not a plain store')]
-        ok, det = e5.prove_value(an, lv, lambda e, L=L: [le(e, L)])
+        ok, det = e5.prove_value(an, lv, lambda e, L=L: [le(e, L)], use_site=(b, i))
         if not ok:
             # fall back: prove at the store itself
             an._site = (b, i)
